@@ -35,8 +35,14 @@ func makeBufferQueueDir(parentLogger logger.Logger, rootPath string, bufferID st
 		parentLogger.Errorf("error creating queue dir path='%s': %s", path, derr.Error())
 	}
 
+	// write a temporary file and rename it: rewriting .id in place would leave it empty, and the queue ignored at the next
+	// start, if the process dies or the disk is full at this moment
+	idPath := filepath.Join(path, idFileName)
 	//nolint:gosec // need extra permissions here
-	if err := os.WriteFile(filepath.Join(path, idFileName), []byte(bufferID), 0o644); err != nil {
+	if err := os.WriteFile(idPath+".tmp", []byte(bufferID), 0o644); err != nil {
+		parentLogger.Errorf("error creating .id file on queue dir path='%s': %s", path, err)
+		_ = os.Remove(idPath + ".tmp")
+	} else if err := os.Rename(idPath+".tmp", idPath); err != nil {
 		parentLogger.Errorf("error creating .id file on queue dir path='%s': %s", path, err)
 	}
 	return path
